@@ -166,7 +166,7 @@ mod table {
         let mut spec = d::leaf_in(&mut c, false, 0, 16);
         spec.set_padding(0);
         let spec = valid(spec)?;
-        let pc = misc::PadCase { spec, from_builder: c.flag() };
+        let pc = misc::PadCase { spec, from_builder: c.flag(), extension_words: if c.u8() % 4 == 0 { 1 + c.u8() % 7 } else { 0 } };
         Some((misc::c13_oracle(&pc, st), js(&pc)))
     }
 
